@@ -275,6 +275,42 @@ try:
             fail(violation="failed component persisted without its errors", doc=doc)
     finally:
         shutil.rmtree(tmp, ignore_errors=True)
+
+    # ---- (5b) a value that fails WHILE BEING PERSISTED (no serializer for it): single value, and every pattern of failing elements of a
+    # multi-output value of <= 3 elements.  The document keeps the surviving elements in order and one error text (a string) per failing element
+    class Unserializable(object):
+        pass
+    from insights.core.spec_factory import DatasourceProvider as _DP
+    for nel in (0, 1, 2, 3):
+        for bad in itertools.product((False, True), repeat=nel):
+            tmp = tempfile.mkdtemp(prefix="c11f_")
+            try:
+                b = dr.Broker()
+                if nel == 0:
+                    value = Unserializable()
+                else:
+                    value = [Unserializable() if bad[i] else _DP(content=["line %d" % i], relative_path="e%d" % i, ds=many) for i in range(nel)]
+                comp = one if nel == 0 else many
+                b[comp] = value
+                Hydration(tmp).dehydrate(comp, b)
+                meta = os.path.join(tmp, "meta_data", dr.get_name(comp) + ".json")
+                count["errors"] += 1
+                nbad = 1 if nel == 0 else sum(bad)
+                if not os.path.exists(meta):
+                    if nbad or nel > sum(bad):
+                        fail(violation="a component with results or errors is not persisted", elements=nel, failing=list(bad))
+                    continue
+                doc = json.load(open(meta))
+                errs = doc["errors"]
+                if not isinstance(errs, list) or len(errs) != nbad or not all(isinstance(e, str) and "Traceback" in e for e in errs):
+                    fail(violation="a value that failed while being persisted is not recorded with one error text per failing element",
+                         elements=nel, failing=list(bad), errors=errs)
+                if nel:
+                    kept = [r["object"]["relative_path"] for r in (doc["results"] or [])]
+                    if kept != ["e%d" % i for i in range(nel) if not bad[i]]:
+                        fail(violation="multi-output order / surviving elements changed", failing=list(bad), kept=kept)
+            finally:
+                shutil.rmtree(tmp, ignore_errors=True)
 finally:
     shutil.rmtree(src, ignore_errors=True)
 print(json.dumps(dict(ok=True, max_lines=L, **count)))
